@@ -73,6 +73,11 @@ def small_specs() -> st.SearchStrategy[t.Any]:
         st.tuples(st.just('map'), st.sampled_from(['dict', 'Dict', 'defaultdict']), st.sampled_from([S('str'), S('int')]), sc),
         st.tuples(st.just('tup'), st.sampled_from(['tuple', 'Tuple']), st.lists(sc, min_size=1, max_size=3).map(tuple)),
         st.tuples(st.just('union'), st.just('Union'), st.lists(sc, min_size=2, max_size=3, unique_by=repr).map(tuple)),
+        st.lists(sc, min_size=2, max_size=2, unique_by=repr).flatmap(lambda ab: st.sampled_from([
+            ('union', 'Union', (('seq', 'List', ab[0]), ('seq', 'List', ab[1]))),
+            ('union', 'Union', (('map', 'Dict', S('str'), ab[0]), ('map', 'Dict', S('str'), ab[1]))),
+            ('union', 'Union', (('seq', 'TupleVar', ab[0]), ('seq', 'TupleVar', ab[1]))),
+        ])),
         st.tuples(st.just('ann'), st.just(S('int')), st.lists(tg.COND_NUM, min_size=1, max_size=1).map(tuple)),
         cg.class_specs(sc, max_fields=2, naming=False, hooks=False),
     )
@@ -147,6 +152,23 @@ class Executor:
             nd = self.live[op[1] % len(self.live)]
             v = op[2]
             self._judge(nd, v, outcome(lambda: pane.from_data(v, nd._ty)), 'from_data')
+        elif kind == 'roundtrip' and self.live:
+            nd = self.live[op[1] % len(self.live)]
+            v = op[2]
+            from .c05 import roundtrip_problem, _Skip
+            if any(isinstance(n, cg.ClsNode) and not n.output_readable() for n in nd.walk()):
+                return
+            try:
+                res = roundtrip_problem(nd, v)
+            except _Skip:
+                return
+            self.ctx.evaluated(3)
+            if self.built_after_drop:
+                self.ctx.nontrivial(True)
+            if res is not None and 'tuple-out-with-kw-only' not in res[1]:
+                from .c05 import d9_config, vol_in_union
+                if not d9_config(nd) and not vol_in_union(nd):
+                    self.ctx.fail('history-independent', f"roundtrip:{res[0]}", res[1] + f"  [after {len(self.ops)} operations]")
         elif kind == 'temp':
             nd = self._build(op[1])
             v = op[2]
@@ -304,6 +326,12 @@ def make_machine(step_budget: int, big: bool) -> t.Any:
             nd = self.ex.live[i % len(self.ex.live)]
             v = data.draw(st.one_of(nd.valid(), nd.valid(), tg.data_values(3)))
             self.ex.apply(['convert', i, v])
+
+        @precondition(lambda self: len(self.ex.live) > 0)
+        @rule(data=st.data(), i=st.integers(0, 7))
+        def roundtrip(self, data: t.Any, i: int) -> None:
+            nd = self.ex.live[i % len(self.ex.live)]
+            self.ex.apply(['roundtrip', i, tg.plainify(data.draw(nd.valid()))])
 
         @rule(data=st.data(), spec=specs)
         def temp_literal(self, data: t.Any, spec: t.Any) -> None:
